@@ -116,11 +116,11 @@ pub fn release(i: u8, into_inner: bool) {
 /// take a released fd (of a removed Generic source or of an unwrapped adapter) and insert it again
 pub fn reinsert(i: u8, ctx: Ctx) {
     enum Got {
-        FromSrc(Uid, FdX, Option<std::os::fd::OwnedFd>),
+        FromSrc(Uid, calloop::generic::Generic<FdX>, Option<std::os::fd::OwnedFd>),
         FromAdapter(FdX),
     }
     let got = w(|w| {
-        let srcs: Vec<Uid> = w.srcs.iter().filter(|s| s.fd_released.is_some()).map(|s| s.uid).collect();
+        let srcs: Vec<Uid> = w.srcs.iter().filter(|s| s.kept_generic.is_some()).map(|s| s.uid).collect();
         let ads: Vec<usize> = w.adapters.iter().enumerate().filter(|(_, a)| a.released_fd.is_some()).map(|(i, _)| i).collect();
         let n = srcs.len() + ads.len();
         if n == 0 {
@@ -129,25 +129,41 @@ pub fn reinsert(i: u8, ctx: Ctx) {
         let k = i as usize % n;
         if k < srcs.len() {
             let u = srcs[k];
-            let f = w.srcs[u].fd_released.take().unwrap();
+            let g = w.srcs[u].kept_generic.take().unwrap();
             let p = w.srcs[u].fd_released_peer.take();
-            Some(Got::FromSrc(u, f, p))
+            Some(Got::FromSrc(u, g, p))
         } else {
             let a = ads[k - srcs.len()];
             Some(Got::FromAdapter(w.adapters[a].released_fd.take().unwrap()))
         }
     });
     let Some(got) = got else { return };
-    let (fdx, peer, kindspec) = match got {
-        Got::FromSrc(u, f, p) => {
+    let (fdx, peer, kindspec, late) = match got {
+        Got::FromSrc(u, g, p) => {
             let k = w(|w| w.srcs[u].spec.kind.clone());
-            (f, p, k)
+            if i % 2 == 0 {
+                // the old wrapper is taken apart first, then the fd is inserted again
+                (g.unwrap(), p, k, None)
+            } else {
+                // the fd is inserted again through a second handle while the old wrapper still exists;
+                // the old wrapper is taken apart afterwards
+                let raw = g.get_ref().raw;
+                (FdX::named(raw), p, k, Some((u, g)))
+            }
         }
-        Got::FromAdapter(f) => (f, None, Kind::Gen { fd: FdKind::Socket, int: Int::Read, md: Md::Level }),
+        Got::FromAdapter(f) => (f, None, Kind::Gen { fd: FdKind::Socket, int: Int::Read, md: Md::Level }, None),
     };
     let spec = SourceSpec { kind: kindspec, lifecycle: false, prog: vec![], fault: None, via_insert: false, bad_fd: None, ready_at_insert: false };
     // the harness reads and writes its sources' fds itself: they must never block
     sysx::set_nonblocking(fdx.raw, true);
     w(|w| w.count("reinsert_released_fd"));
     super::build::insert_with_fd(&spec, fdx, peer, ctx);
+    if let Some((u, g)) = late {
+        // unwrapping the wrapper of the *removed* source must leave the new registration of the same fd alone
+        let owned = g.unwrap();
+        w(|w| {
+            w.count("old_wrapper_unwrapped_after_reinsertion");
+            w.srcs[u].fd_keepalive.push(owned);
+        });
+    }
 }
